@@ -5,6 +5,7 @@
 # Prints one JSON line.  Works in a scratch worktree of /repo HEAD which is removed afterwards.
 set -u
 SEED="$1"; BASE="$2"
+VROOT=$(cd "$(dirname "$0")/.." && pwd)
 ID=$(basename "$SEED")
 PROP=$(python3 -c "import json;print(json.load(open('$SEED/meta.json'))['property'])")
 WT=/tmp/seedverify/$ID; OUTD=/tmp/seedverify/out_$ID
@@ -19,7 +20,7 @@ if [ $AP -eq 0 ]; then
   PYTHONPATH="$WT" timeout 1200 /venv/bin/python -m pytest -q -p no:cacheprovider --timeout=900 -rA test/ 2>/dev/null | grep '^PASSED' | sort > "$OUTD/pass.txt"
   if cmp -s "$OUTD/pass.txt" "$BASE"; then TP=0; else TP=1; fi
   rm -f test/chrM-Y-trunc.hg19.bed
-  cd /verif
+  cd "$VROOT"
   VERIF_REPO="$WT" VERIF_OUT="$OUTD" ./check "$PROP" --tier quick > "$OUTD/check.log" 2>&1; RC=$?
   NV=$(grep -c '^VIOLATION' "$OUTD/check.log")
 fi
